@@ -219,6 +219,7 @@ fn crash_opts(args: &Args) -> Option<crash::CrashOpts> {
         max_points: args.num("max-points", 0) as usize,
         seed: args.num("seed", 1),
         deadline: Duration::from_secs(args.num("deadline", 10)),
+        glue: args.flag("glue"),
     })
 }
 
@@ -319,6 +320,7 @@ fn cmd_run(args: &Args) {
                 output_in.add("crash_depth2_points", stats.depth2_points as u64);
                 output_in.add("crash_not_ok", stats.not_ok as u64);
                 output_in.add("crash_timeouts", stats.timeouts as u64);
+                output_in.add("crash_glue_points", stats.glue_points as u64);
                 lines
             }
             None => Vec::new(),
